@@ -18,6 +18,7 @@ TRANSLATORS = [
     ('gen_singleton', ['SingletonProg.v']),
     ('gen_case2', ['CaseTabs2.v']),
     ('gen_sites', ['SiteInv.v']),
+    ('gen_frontends', ['Frontends.v']),
 ]
 
 
